@@ -85,8 +85,8 @@ def tree_scopes(src):
     return out
 
 
-def make_trace(src, out, focus, scopes, keep_all=False, keep=()):
-    return {'src': list(src), 'out': list(out), 'keepAll': bool(keep_all), 'keep': [list(k) for k in keep],
+def make_trace(src, out, focus, scopes, keep_all=False, keep_file=b''):
+    return {'src': list(src), 'out': list(out), 'keepAll': bool(keep_all), 'keepFile': list(keep_file),
             'builtins': BUILTINS, 'statsIn': stats_of(src), 'statsOut': stats_of(out), 'scopes': scopes,
             'titleIn': title_of(src, 0), 'titleOut': title_of(out, 0),
             'bylineIn': title_of(src, 1), 'bylineOut': title_of(out, 1), 'focus': focus}
@@ -107,6 +107,25 @@ def names_in(src):
     return seen
 
 
+def keep_file_bytes(names, rnd=None, style=None):
+    """A --keep-names-from-file file listing `names`, in one of the formats a user's editor produces:
+    with / without comment and blank lines, LF / CRLF, blanks around the names, with / without a final newline.
+    style 0 (or no rnd) is the plain form."""
+    if rnd is None or style == 0:
+        return b'# kept names\n\n' + b'\n'.join(names) + b'\n'
+    eol = rnd.choice((b'\n', b'\n', b'\r\n'))
+    out = [rnd.choice((b'', b'', b'# kept' + eol, eol, b'  # c' + eol, b'#' + eol + eol))]
+    names = list(names)
+    rnd.shuffle(names)
+    for k, w in enumerate(names):
+        out.append(rnd.choice((b'', b'', b' ', b'\t', b'  ')) + w + rnd.choice((b'', b'', b' ', b'\t ')))
+        if k < len(names) - 1 or rnd.randrange(3):
+            out.append(eol)
+        if rnd.randrange(6) == 0:
+            out.append(rnd.choice((eol, b'# ' + w + b'x' + eol, b' ' + eol)))
+    return b''.join(out)
+
+
 class KeepFiles:
     """Temp keep-names files (the option takes a path)."""
 
@@ -114,11 +133,12 @@ class KeepFiles:
         self.dir = tempfile.mkdtemp(prefix='keep_', dir=ctx.tmp)
         self.n = 0
 
-    def make(self, names):
+    def make(self, names, rnd=None, raw=None):
         self.n += 1
         p = os.path.join(self.dir, 'keep%d.txt' % self.n)
+        self.raw = raw if raw is not None else keep_file_bytes(names, rnd)
         with open(p, 'wb') as f:
-            f.write(b'# kept names\n\n' + b'\n'.join(names) + b'\n')
+            f.write(self.raw)
         return p
 
 
